@@ -37,7 +37,8 @@ structure TxAbs where
   valuesOk : Bool    -- value rules of blockchain.CheckTransactionInputs
   std : Bool         -- CheckTransactionStandard apart from finality, and checkInputsStandard
   sigOk : Bool       -- sigop cost within Policy.MaxSigOpCostPerTx
-  highPrio : Bool    -- mining.CalcPriority > MinHighPriority
+  inVals : List Nat  -- amount of the output each input spends (0 when unknown), for mining.CalcPriority
+  prioSize : Nat     -- serialized size minus the per-input overhead CalcPriority discounts (0: priority 0)
   scriptsOk : Bool   -- blockchain.ValidateTransactionScripts with the standard flags
 deriving DecidableEq, Repr
 
@@ -51,6 +52,7 @@ structure Policy where
   freeRelay : Bool       -- true: the rate limiter never rejects; false: it always rejects
   minStdSize : Nat       -- MinStandardTxNonWitnessSize: relay-policy tuning, read from the tree, not pinned
   blockPrioritySize : Nat -- DefaultBlockPrioritySize: internal tuning, read from the tree, not pinned
+  minHighPrio : Nat      -- mining.MinHighPriority (an integer): internal tuning, read from the tree, not pinned
 deriving Repr
 
 /-! ### chain view -/
@@ -341,13 +343,25 @@ def seqLocksOk (c : Chain) (t : TxAbs) : Bool :=
 def immature (c : Chain) (x : OutPoint) : Bool :=
   c.utxo.any (fun u => u.op = x && u.cb && (c.height + 1 - u.height < c.maturity))
 
+/-- `mining.CalcPriority` compared with `MinHighPriority`: Σ amount·age over the inputs found in the chain (an
+unconfirmed input has age 0) divided by the discounted size.  The float64 comparison `priority > min` is the
+integer comparison below: the sum and the products are exact in float64 (< 2^53), and a quotient above the
+threshold is above it by at least 1/size, far more than one ulp. -/
+def inputValueAge (c : Chain) (t : TxAbs) : Nat :=
+  ((t.ins.zip t.inVals).map (fun p => match c.find p.1 with
+    | some u => p.2 * (c.height + 1 - u.height)
+    | none => 0)).sum
+
+def priorityHigh (pol : Policy) (c : Chain) (t : TxAbs) : Bool :=
+  decide (0 < t.prioSize ∧ pol.minHighPrio * t.prioSize < inputValueAge c t)
+
 /-- `validateRelayFeeMet` (rate limiter abstracted to `freeRelay`). -/
-def relayFeeMet (pol : Policy) (t : TxAbs) (isNew rateLimit : Bool) : Bool :=
+def relayFeeMet (pol : Policy) (c : Chain) (t : TxAbs) (isNew rateLimit : Bool) : Bool :=
   let minFee := minRelayFeeFor t.vsize pol.minRelayFee
   if t.vsize ≥ pol.blockPrioritySize - 1000 ∧ t.fee < minFee then false
   else if t.fee ≥ minFee then true
   else if !isNew && !rateLimit then true
-  else if isNew && !pol.disablePriority && !t.highPrio then false
+  else if isNew && !pol.disablePriority && !priorityHigh pol c t then false
   else pol.freeRelay
 
 /-- tail of `checkMempoolAcceptance`: replacement rules, then script verification. -/
@@ -365,7 +379,7 @@ def checkInputs (pol : Policy) (c : Chain) (s : Pool) (t : TxAbs) (isNew rateLim
   else if !pol.acceptNonStd && !t.std then .err .nonstd
   else if !seqLocksOk c t then .err .nonstd
   else if !t.sigOk then .err .nonstd
-  else if !relayFeeMet pol t isNew rateLimit then .err .lowfee
+  else if !relayFeeMet pol c t isNew rateLimit then .err .lowfee
   else checkTail pol s t isRepl
 
 /-- after `fetchInputUtxos`: already-in-chain test and the orphan test. -/
